@@ -11,6 +11,8 @@ closures applied to their argument (beta reduction through flow.Terms of the clo
 the selections that sit at the root (or in aggregate fields) into rows (conditions, value): the same table whichever
 idiom the source uses.  Nothing of the analysed repository is executed: this is term rewriting over the MIR facts.
 """
+import re
+
 from . import flow, names, summary
 
 OPT = "core::option::Option"
@@ -230,6 +232,12 @@ class Normalizer:
             return ("discr", self.norm(t[1], depth)) + t[2:]
         if k == "unop" and t[1] == "Not":
             x = self.norm(t[2], depth)
+            if isinstance(x, tuple) and len(x) == 4 and x[0] == "call" and names.is_(x[1], "Flags::is_empty") and len(x[2]) == 1:
+                y = x[2][0]
+                if isinstance(y, tuple) and len(y) == 4 and y[0] == "call" and (names.is_(y[1], "Flags::bitand") or names.is_(y[1], "BitAnd::bitand") or names.is_(y[1], "Flags::intersection")) and len(y[2]) == 2:
+                    for f_, c_ in ((y[2][0], y[2][1]), (y[2][1], y[2][0])):
+                        if self._single_bit_const(c_):
+                            return ("call", x[1].replace("::is_empty", "::contains"), (f_, c_), 0)
             return flow.simplify_term(_not(x))
         if k in ("unop", "cast"):
             return t[:-1] + (self.norm(t[-1], depth),)
@@ -260,6 +268,19 @@ class Normalizer:
             return ("never",)
         return (k, x)
 
+    def _single_bit_const(self, c):
+        """is the constant term a flag constant / literal with exactly one bit set?"""
+        if not (isinstance(c, tuple) and len(c) == 2 and c[0] == "const"):
+            return False
+        v = c[1]
+        if isinstance(v, str):
+            k = self.p.consts.get(v) if self.p is not None else None
+            try:
+                v = int(k["bits"]) if k and k.get("bits") is not None else None
+            except (TypeError, ValueError):
+                v = None
+        return isinstance(v, int) and not isinstance(v, bool) and v > 0 and v & (v - 1) == 0
+
     def _combinator(self, callee, a, depth):
         is_ = lambda *ps: any(names.is_(callee, p) for p in ps)
         ap = lambda f, *xs: self.apply(f, xs, depth)
@@ -267,6 +288,18 @@ class Normalizer:
         if n == 0:
             return None
         x = a[0]
+        # ---- integers: `a.saturating_add(b)` is `a.checked_add(b).unwrap_or(MAX)`
+        m_ = re.match(r"^core::num::<impl (u8|u16|u32|u64|usize)>::saturating_add$", callee)
+        if m_ and n == 2:
+            mx = {"u8": 2**8 - 1, "u16": 2**16 - 1, "u32": 2**32 - 1, "u64": 2**64 - 1, "usize": 2**64 - 1}[m_.group(1)]
+            ca = ("call", callee.replace("saturating_add", "checked_add"), (a[0], a[1]), 0)
+            return ("gamma", ("discr", ca, "Option"), ((("in", "0"), ("const", mx)), (("in", "1"), ("payload", ca))))
+        m_ = re.match(r"^core::num::<impl (u8|u16|u32|u64|usize)>::checked_add$", callee)
+        if m_ and n == 2:
+            return ("call", callee, (a[0], a[1]), 0)  # one site-independent term per (a, b)
+        # ---- flag sets: for a single-bit constant C, `!(f & C).is_empty()`, `f.intersects(C)` and `f.contains(C)` agree
+        if is_("Flags::intersects") and n == 2 and self._single_bit_const(a[1]):
+            return ("call", callee.replace("::intersects", "::contains"), (a[0], a[1]), 0)
         # ---- Option
         if is_("Option::ok_or") and n == 2:
             return opt_case(x, ok, err(a[1]))
